@@ -65,9 +65,11 @@ fn check_log(name: &str, log: &Log) -> Result<(usize, usize), Fail> {
                 last_mark = m.clone();
                 marks.push(m.clone());
             },
-            Ev::RekeyBegin { .. } => rekeys += 1,
             Ev::Enc { key, nonce, ad, pt, .. } => {
                 encs += 1;
+                if crate::instr::is_rekey_shape(ev) {
+                    rekeys += 1;
+                }
                 let Some(k) = key else {
                     return Err(Fail::new(format!("{name}: encryption without any key set (during {last_mark})")));
                 };
@@ -118,7 +120,7 @@ pub fn oracle(c: &Case, acc: &mut Acc) -> CaseResult {
     let mk = |init: bool, omit: &Vec<u8>, rng: &SharedRng| {
         let ov = EpOverrides { omit_psks: omit.clone(), ..Default::default() };
         build_snow(&spec, init, &ov, &Instr { rng: Some(rng.clone()), log: Some(log.clone()) })
-            .map_err(|x| Fail::new(format!("build {name}: {}", e(&x))))
+            .map_err(|x| Fail::setup(format!("build {name}: {}", e(&x))))
     };
     let mut hi = mk(true, &omit_i, &rng_i)?;
     let mut hr = mk(false, &omit_r, &rng_r)?;
@@ -264,8 +266,8 @@ pub fn oracle(c: &Case, acc: &mut Acc) -> CaseResult {
         let oneway = spec.pattern().is_oneway();
         let mut fresh = 0u64;
         if c.stateless {
-            let mut ti = hi.into_stateless_transport_mode().map_err(|x| Fail::new(e(&x)))?;
-            let mut tr = hr.into_stateless_transport_mode().map_err(|x| Fail::new(e(&x)))?;
+            let mut ti = hi.into_stateless_transport_mode().map_err(|x| Fail::setup(e(&x)))?;
+            let mut tr = hr.into_stateless_transport_mode().map_err(|x| Fail::setup(e(&x)))?;
             let mut n = [0u64; 2];
             for (k, op) in c.tops.iter().enumerate() {
                 log.mark(format!("transport(stateless) {op:?}"));
@@ -317,8 +319,8 @@ pub fn oracle(c: &Case, acc: &mut Acc) -> CaseResult {
                 }
             }
         } else {
-            let mut ti = hi.into_transport_mode().map_err(|x| Fail::new(e(&x)))?;
-            let mut tr = hr.into_transport_mode().map_err(|x| Fail::new(e(&x)))?;
+            let mut ti = hi.into_transport_mode().map_err(|x| Fail::setup(e(&x)))?;
+            let mut tr = hr.into_transport_mode().map_err(|x| Fail::setup(e(&x)))?;
             for (k, op) in c.tops.iter().enumerate() {
                 log.mark(format!("transport {op:?}"));
                 match op {
